@@ -7,6 +7,15 @@ ids = [p["id"] for p in props]
 
 # id -> (engine, technique, level text, level note, design ref)
 CLAIMED = {
+ "C13": ("E-DICT", "proptest generation of (dictionary, data, config, flow, chunking, get-dictionary points); model strings + bitwise Adler-32 as oracle",
+         "exploration: zlib/raw/raw-mid-stream/gzip-refusal flows through libz_rs_sys and the Rust wrappers: FDICT/DICTID, NEED_DICT id, rejection of a dictionary with another Adler-32, acceptance of a different dictionary with the same Adler-32, round trip, inflateGetDictionary = last min(n, 32768) bytes exactly, deflateGetDictionary = suffix of dictionary + consumed input with the documented length slack",
+         "deflateGetDictionary length may be up to 262 bytes short of the window after a slide and restarts after a completed FULL flush (zlib forgets the history there); content is compared exactly", "DESIGN.md 6 (C13)"),
+ "C15": ("E-DEF, E-INF", "proptest generation of deflate/inflate sessions and one-shot calls; per-call accounting invariants as oracle",
+         "exploration: after every call of generated sessions (valid, invalid, truncated, trailing garbage; C API and Rust wrappers) cursor/avail/total deltas agree and never underflow, BUF_ERROR only without progress, dictionary bytes counted on the C deflate side; compress2/uncompress/uncompress2 lengths equal the construction-known stream and data lengths",
+         "the dictionary bytes zlib counts are those it loads (at most one window); *destLen = 0 handling of uncompress is a recorded known finding (zlib-compatible)", "DESIGN.md 6 (C15)"),
+ "C20": ("E-DEF (write), E-INF (read)", "proptest generation of gz_header contents x memLevel x output chunking (write) and R-GEN gzip streams x input chunking x capture capacities with guard pages (read); RFC 1952 parser as oracle",
+         "exploration: the emitted header equals the supplied fields bit for bit (incl. fields larger than the pending buffer with 1-byte output, C boolean ints for text/hcrc, FHCRC) and the body still decodes; captured fields equal the stream's up to the announced capacity, absent fields are NULL, done follows the header/-1 protocol, nothing is written past *_max (guard pages)",
+         "trusts R-GZH/R-CK; header strings are NUL-free by construction as the API requires", "DESIGN.md 6 (C20)"),
  "C01": ("E-DEF->E-INF", "proptest tape generation of (config, data recipe, legal deflate schedule incl. params/tune/flushes) with shrinking; round-trip oracle through zlib-rs inflate one-shot and chunked",
          "exploration: generated sessions over all levels/strategies/windows/memLevels/wrappers with inputs of several window sizes and adversarial per-call buffers (0/1 byte up to 400000) on libz_rs_sys, zlib_rs::Deflate and compress_slice must decompress to exactly the input with STREAM_END consuming the whole stream",
          "round-trip oracle uses zlib-rs's own inflate (as the property states); legality of schedules follows the zlib manual (flush repeated until avail_out > 0, only FINISH after FINISH)", "DESIGN.md 6 (C01)"),
